@@ -694,6 +694,23 @@ def check_shape(desc, ctx):
     sat = saturation(model, P)
     kh = henry_constant(model, P)
     name = _fmt(model, P, T)
+    if model not in ZERO_DEFINED:
+        # DR / DA: ln(0) is outside the equations. The zero point may be refused; a value that is returned for it must
+        # not break 'non-negative and non-decreasing in pressure' (the equations tend to zero loading)
+        tiny = float(np.min(x))
+        for form_name, arg, pick in (("float", 0.0, None), ("1-d", np.array([0.0, tiny]), 0)):
+            try:
+                with np.errstate(all="ignore"):
+                    r0 = np.asarray(m.loading(arg), dtype=float)
+                    rt = float(np.ravel(np.asarray(m.loading(tiny), dtype=float))[0])
+            except (CalculationError, ZeroDivisionError, FloatingPointError):
+                ctx.label("zero_point_refused")
+                continue
+            n0 = float(np.ravel(r0)[0 if pick is None else pick])
+            if not (0.0 <= n0 <= rt * (1 + 1e-9)):
+                raise Violation(f"{name}: loading({form_name} 0) = {n0!r} although loading({tiny!r}) = {rt!r} "
+                                "(zero point: non-negative, not above the loading at any positive pressure)", tag="zero_loading")
+            ctx.label("zero_point_value")
     if explicit_is_loading(model):
         n = np.asarray(m.loading(x.copy()), dtype=float)
         if not _finite(n):
